@@ -105,7 +105,7 @@ fn generated(ctx: &mut Ctx) {
     for c in 0..cases {
         if !ctx.begin_case() { continue; }
         let mut rng = ctx.rng(0xC15_000 + c as u64);
-        let n: usize = match c % 6 { 0 => 1 + rng.below(40), 1 => 64 + rng.below(2000), 2 => 1usize << (10 + rng.below(30)), 3 => (1usize << 40) - rng.below(3), 4 => 1 + rng.below(8), _ => 1000 + rng.below(100000) };
+        let n: usize = match c % 8 { 0 => 1 + rng.below(40), 1 => 64 + rng.below(2000), 2 => 1usize << (10 + rng.below(30)), 3 => (1usize << 40) - rng.below(3), 4 => 1 + rng.below(8), 5 => usize::MAX - rng.below(3), 6 => (1usize << 63) + rng.below(1 << 40), _ => 1000 + rng.below(100000) };
         let mut pos: Vec<usize> = Vec::new();
         let groups = 1 + rng.below(12);
         for g in 0..groups {
@@ -180,6 +180,23 @@ fn from_iter(ctx: &mut Ctx) {
             }
             ctx.case(hash64(&[3, k as u64, code]), k >= 2);
             ctx.sample(|| format!("from_iter: sequence={:?} sorted={}", seq, sorted));
+        }
+    }
+    // Sequences whose last value is close to usize::MAX (the universe is last + 1).
+    if ctx.mine(2) {
+        for k in 0..ctx.size(40, 400) {
+            if !ctx.begin_case() { continue; }
+            let mut r2: Rng = ctx.rng(0xC15_A00 + k as u64);
+            let last = match k % 4 { 0 => usize::MAX - 1, 1 => usize::MAX - 2 - r2.below(1000), 2 => (1usize << 63) + r2.below(1 << 30), _ => usize::MAX - 1 - (r2.magnitude(50) as usize) };
+            let mut seq: Vec<usize> = (0..(1 + r2.below(6))).map(|_| r2.range(0, last)).collect();
+            seq.push(last); if k % 3 == 0 { seq.push(last); }
+            seq.sort_unstable();
+            let universe = last + 1;
+            let m = SetModel::new(universe, seq.clone());
+            let got = guard(|| SparseVector::try_from_iter(seq.iter().copied()).map_err(|e| e.to_string())).and_then(|r| r);
+            let args = QArgs::around(&m, &seq, true);
+            check_multiset(ctx, "try_from_iter", got, &m, &args);
+            ctx.case(hash64(&[5, last as u64, seq.len() as u64]), true);
         }
     }
     // Longer random sequences, sorted and with one inversion.
